@@ -40,6 +40,105 @@ def _key_label(key):
     return k[:40]
 
 
+def _leaves(obj, h, depth=0):
+    """feed the literal content of a graph node into hash h, ignoring keys / references (they contain uuids)"""
+    import numpy as np
+    from dask._task_spec import Alias, DataNode, Task, TaskRef
+
+    if depth > 12:
+        return
+    if isinstance(obj, Task):
+        fn = obj.func
+        h.update((getattr(fn, "__qualname__", None) or getattr(fn, "__name__", None) or type(fn).__name__).encode())
+        owner = getattr(fn, "__self__", None)
+        if owner is not None and not isinstance(owner, type) and hasattr(owner, "__dict__"):
+            # a bound method: two different objects (e.g. two alignment models) must not get the same label
+            for name in sorted(vars(owner)):
+                v = vars(owner)[name]
+                if isinstance(v, (np.ndarray, int, float, str, tuple)):
+                    h.update(name.encode())
+                    _leaves(v, h, depth + 1)
+        for a in obj.args:
+            _leaves(a, h, depth + 1)
+        for k in sorted(obj.kwargs):
+            h.update(str(k).encode())
+            _leaves(obj.kwargs[k], h, depth + 1)
+    elif isinstance(obj, DataNode):
+        _leaves(obj.value, h, depth + 1)
+    elif isinstance(obj, (Alias, TaskRef)):
+        h.update(b"<ref>")
+    elif hasattr(obj, "args") and type(obj).__module__.startswith("dask"):
+        for a in obj.args:
+            _leaves(a, h, depth + 1)
+    elif isinstance(obj, dict):
+        for v in obj.values():
+            _leaves(v, h, depth + 1)
+    elif isinstance(obj, (list, tuple, set, frozenset)):
+        for v in obj:
+            _leaves(v, h, depth + 1)
+    elif isinstance(obj, np.ndarray):
+        h.update(str(obj.dtype).encode() + str(obj.shape).encode())
+        if obj.size <= 200000:
+            h.update(np.ascontiguousarray(obj).tobytes())
+    elif isinstance(obj, (slice, int, float, bool, complex, type(None), np.generic)):
+        h.update(repr(obj).encode())
+    elif isinstance(obj, str):
+        h.update(re.sub(r"[0-9a-f-]{4,}", "", obj).encode())
+    elif callable(obj):
+        h.update((getattr(obj, "__qualname__", None) or type(obj).__name__).encode())
+    else:
+        h.update(type(obj).__name__.encode())
+
+
+def canonical_labels(d, prio):
+    """key -> label that depends only on the graph's content (functions, literal arguments, structure), not on uuids"""
+    import hashlib
+
+    labels = {}
+
+    def lab(k, stack=()):
+        if k in labels:
+            return labels[k]
+        node = d[k]
+        h = hashlib.sha1()
+        _leaves(node, h)
+        for dl in sorted(lab(x, stack + (k,)) for x in node.dependencies if x in d and x not in stack):
+            h.update(dl.encode())
+        fn = _func_name(node) or type(node).__name__
+        if fn == "_execute_subgraph":
+            fn = "subgraph:" + _key_label(k)
+        labels[k] = f"{fn.split('.')[-1]}:{h.hexdigest()[:8]}"
+        return labels[k]
+
+    for k in d:
+        lab(k)
+    # refine with the consumers of each task (Weisfeiler-Lehman style, both directions): two tasks with the same
+    # content but different consumers are not interchangeable for the schedule
+    dependents = {k: [] for k in d}
+    for k, node in d.items():
+        for x in node.dependencies:
+            if x in dependents:
+                dependents[x].append(k)
+    for _ in range(3):
+        new = {}
+        for k in d:
+            h = hashlib.sha1(labels[k].encode())
+            for dl in sorted(labels[x] for x in dependents[k]):
+                h.update(b">" + dl.encode())
+            for dl in sorted(labels[x] for x in d[k].dependencies if x in d):
+                h.update(b"<" + dl.encode())
+            new[k] = labels[k].split(":")[0] + ":" + h.hexdigest()[:8]
+        labels = new
+    # tasks that are still indistinguishable are interchangeable (automorphic): number them in dask's order
+    seen = {}
+    out = {}
+    for k in sorted(d, key=lambda k: prio[k]):
+        i = seen.get(labels[k], 0)
+        seen[labels[k]] = i + 1
+        out[k] = labels[k] + (f"#{i}" if i else "")
+    return out
+
+
 class ControlledScheduler:
     """One execution.  `prefix` = choices (indices into the canonical ready list) at successive choice points;
     beyond the prefix the default (index 0 = dask's priority) is taken."""
@@ -47,8 +146,9 @@ class ControlledScheduler:
     def __init__(self, prefix=(), reduce_pure=True):
         self.prefix = list(prefix)
         self.reduce_pure = reduce_pure
-        self.points = []  # per choice point: list of canonical names of the ready impure tasks (default first)
-        self.choices = []
+        self.points = []  # per choice point: canonical names of the ready tasks, sorted by name
+        self.choices = []  # explicit index taken at each choice point
+        self.defaults = []  # index dask's own priority would have taken
         self.trace = []  # canonical names in execution order
         self.n_graphs = 0
         self.n_tasks = 0
@@ -62,17 +162,7 @@ class ControlledScheduler:
         prio = order(d)
         g = self.n_graphs
         self.n_graphs += 1
-        # canonical names: label + rank among same-label tasks in dask's static order
-        counts = {}
-        names = {}
-        for k in sorted(d, key=lambda k: prio[k]):
-            node = d[k]
-            lab = _func_name(node) or type(node).__name__
-            if lab == "_execute_subgraph":
-                lab = "subgraph:" + _key_label(k)
-            i = counts.get(lab, 0)
-            counts[lab] = i + 1
-            names[k] = f"g{g}:{lab}#{i}"
+        names = {k: f"g{g}:{v}" for k, v in canonical_labels(d, prio).items()}
 
         def pure(k):
             node = d[k]
@@ -98,20 +188,22 @@ class ControlledScheduler:
                     remaining.discard(k)
                     self.n_tasks += 1
                     continue
-            cand = ready
+            cand = sorted(ready, key=lambda k: names[k])
             if len(cand) == 1:
                 k = cand[0]
             else:
                 i = len(self.points)
                 labels = [names[x] for x in cand]
+                default = min(range(len(cand)), key=lambda j: prio[cand[j]])
                 if i < len(self.prefix):
                     c = self.prefix[i]
                     if c >= len(cand):
                         raise Divergence(f"choice {c} at point {i} but only {len(cand)} ready tasks: {labels}")
                 else:
-                    c = 0
+                    c = default
                 self.points.append(labels)
                 self.choices.append(c)
+                self.defaults.append(default)
                 k = cand[c]
             self.trace.append(names[k])
             done[k] = d[k](done)
@@ -133,18 +225,33 @@ class ControlledScheduler:
 
 def run_with(prefix, body, reduce_pure=True):
     """Execute body() under a controlled scheduler following `prefix`. Returns (scheduler, result-or-exception)."""
+    import uuid
+
     import dask
 
     s = ControlledScheduler(prefix, reduce_pure=reduce_pure)
-    with dask.config.set(scheduler=s):
-        try:
-            res = ("ok", body())
-        except Divergence:
-            raise
-        except Exception as e:  # noqa
-            import traceback
+    # dask names delayed objects with uuid4(); graph optimisation and static ordering break ties on those names, so
+    # the graph itself would differ from run to run.  Own that source of nondeterminism: a counter instead of entropy.
+    counter = [0]
+    real_uuid4 = uuid.uuid4
 
-            res = ("raised", e, traceback.format_exc())
+    def fake_uuid4():
+        counter[0] += 1
+        return uuid.UUID(int=(0x5EED << 96) + counter[0])
+
+    uuid.uuid4 = fake_uuid4
+    try:
+        with dask.config.set(scheduler=s):
+            try:
+                res = ("ok", body())
+            except Divergence:
+                raise
+            except Exception as e:  # noqa
+                import traceback
+
+                res = ("raised", e, traceback.format_exc())
+    finally:
+        uuid.uuid4 = real_uuid4
     return s, res
 
 
@@ -163,10 +270,12 @@ def explore(body, bound=None, max_executions=5000, reduce_pure=True):
         if n >= max_executions:
             explore.capped = bool(stack)
             return
-        used = sum(1 for c in s.choices[: len(prefix)] if c != 0)
+        used = sum(1 for c, d0 in zip(s.choices[: len(prefix)], s.defaults[: len(prefix)]) if c != d0)
         for i in range(len(prefix), len(s.points)):
-            for alt in range(1, len(s.points[i])):
+            for alt in range(len(s.points[i])):
+                if alt == s.choices[i]:
+                    continue
                 if bound is not None and used + 1 > bound:
                     continue
                 stack.append(s.choices[:i] + [alt])
-            # choices[i] beyond the prefix is always 0 (default): no deviation consumed
+            # the choice taken at i beyond the prefix is the default: no deviation consumed
